@@ -1159,3 +1159,62 @@ pub fn gen_select(seed: u64, tier: &Tier, shard: usize, nshards: usize, emit: &m
         emit(plist("select", [l(&peers), l(&live), l(&dead), l(&seeds), format!("(counter {} {})", rng.next(), rng.next() | 1)]));
     }
 }
+
+// ------------------------------------------------------------------------------------------------
+// server suite: scripts of transport events / commands against the real gossip loop
+
+pub fn gen_server(seed: u64, tier: &Tier, shard: usize, nshards: usize, emit: &mut dyn FnMut(String)) {
+    let ncases = if tier.thorough { 4000 } else { 320 };
+    emit(format!("(case server-{shard})"));
+    for i in 0..ncases {
+        if i % nshards != shard {
+            continue;
+        }
+        let mut rng = Rng::new(seed ^ ((i as u64) << 16) ^ 0x5E7);
+        let with_seed = rng.chance(2, 3);
+        // send outcomes: mostly ok/err mixes; panics rarely
+        let nscript = rng.range(1, 5);
+        let mut script = Vec::new();
+        for _ in 0..nscript {
+            script.push(match rng.below(12) {
+                0..=5 => "ok",
+                6..=10 => "err",
+                _ => if rng.chance(1, 3) { "panic" } else { "err" },
+            });
+        }
+        let nev = rng.range(0, 12);
+        let mut t = 0u64;
+        let mut evs = Vec::new();
+        let mut terminated = false;
+        for _ in 0..nev {
+            t += rng.range(1, 400);
+            if t % 512 == 0 {
+                t += 1;
+            }
+            let kind = match rng.below(20) {
+                0..=5 => "syn1",
+                6 | 7 => "syn0",
+                8..=10 => "ack",
+                11 | 12 => "junk",
+                13 | 14 => "gossip",
+                15 | 16 => "lock",
+                17 => "fatal",
+                18 => "shutdown",
+                _ => "syn1",
+            };
+            if terminated && (kind == "fatal" || kind == "shutdown") {
+                continue;
+            }
+            if kind == "fatal" || kind == "shutdown" {
+                terminated = true;
+            }
+            evs.push(plist("at", [t.to_string(), kind.to_string()]));
+        }
+        let t_end = t + rng.range(1, 1500);
+        let t_end = if t_end % 512 == 0 { t_end + 1 } else { t_end };
+        emit(plist(
+            "server",
+            [(with_seed as u8).to_string(), plist("sends", script.iter()), plist("events", evs.iter()), t_end.to_string()],
+        ));
+    }
+}
